@@ -18,7 +18,7 @@ from __future__ import annotations
 
 import ast
 
-from ..astutil import norm, enclosing_loops, in_comprehension
+from ..astutil import norm, enclosing_loops, in_comprehension, dotted
 from ..loader import AnalysisError
 from .. import tables as T
 from ..callgraph import lam_key
@@ -210,3 +210,33 @@ def _reach_avoiding(cg, src, avoid, edge_ok):
                     pred[v] = (u, ev)
                     dq.append(v)
     return pred
+
+
+def r66(ctx, rep, rule="R6.6"):
+    """the constraint objects handed to the solver carry only the constraint
+    function and its limits: a user Jacobian / Hessian kept on them would be
+    called by scipy's VectorFunction at every evaluated point (user code
+    outside what the evaluation counts and documents)"""
+    f = ctx.func("cobyqa.main:_get_constraints")
+    n = 0
+    for node in ast.walk(f.node):
+        if isinstance(node, ast.Call) and (dotted(node.func) or "").split(".")[-1] == "NonlinearConstraint":
+            n += 1
+            extra = [k.arg for k in node.keywords if k.arg not in ("fun", "lb", "ub", "keep_feasible")] + (["<positional>"] if len(node.args) > 3 else [])
+            desc = f"{f.local}:{node.lineno} NonlinearConstraint(fun, lb, ub)"
+            if extra:
+                rep.bad(rule, desc)
+                rep.finding(rule, f, norm(node)[:120], node.lineno, f"the normalised constraint object is given {extra}: derivative callables of the user would be run by scipy at every evaluated point")
+            else:
+                rep.ok(rule, desc + " carries no derivative callable")
+    if n < 2:
+        raise AnalysisError(f"_get_constraints: only {n} NonlinearConstraint constructions found (floor 2)")
+
+
+_old_run06 = run
+
+
+def run(ctx, rep):  # noqa: F811
+    _old_run06(ctx, rep)
+    rep.rule("R6.6", "normalised constraint objects carry only fun/lb/ub (no user derivative callables)")
+    r66(ctx, rep)
